@@ -31,6 +31,17 @@ VARIANTS = [
         dict(file=M, old="enumerate(molecule.nodes(), start=offset + 1)", new="enumerate(molecule.nodes(), start=offset)")]),
     dict(name='to-molecule-edge-untranslated', expect='fire', key='PROV-merge|to_molecule|refs', edits=[
         dict(file=M, old="            mol.add_edge(*(name_to_idx[node] for node in edge), **attrs)", new="            mol.add_edge(*edge, **attrs)")]),
+    dict(name='subgraph-walks-generator-twice (original defect F26)', expect='fire', key='ITER-one-shot|Molecule.subgraph|nodes', edits=[
+        dict(file=M, old="        nodes = list(nodes)\n        node_copies =", new="        node_copies =")]),
+    dict(name='add-interaction-documented-iterable-walked-twice', expect='fire', key='ITER-one-shot|Molecule.add_interaction|atoms', edits=[
+        dict(file=M, old="        atoms: collections.abc.Sequence\n            The atoms that are involved in this interaction. Must be in this\n            molecule\n        parameters: collections.abc.Iterable\n            The parameters for this interaction.\n        meta: collections.abc.Mapping\n            Metadata for this interaction, such as comments to be written to\n            the output.\n\n        Raises\n        ------\n        KeyError\n            If one of the atoms is not in this molecule.",
+             new="        atoms: collections.abc.Iterable\n            The atoms that are involved in this interaction. Must be in this\n            molecule\n        parameters: collections.abc.Iterable\n            The parameters for this interaction.\n        meta: collections.abc.Mapping\n            Metadata for this interaction, such as comments to be written to\n            the output.\n\n        Raises\n        ------\n        KeyError\n            If one of the atoms is not in this molecule.")]),
+    dict(name='benign-subgraph-materialise-as-tuple', expect='silent', edits=[
+        dict(file=M, old="        nodes = list(nodes)\n        node_copies =", new="        nodes = tuple(nodes)\n        node_copies =")]),
+    dict(name='edges-generator-walked-twice (logged, then added: nothing is added)', expect='fire', key='ITER-local-one-shot|vermouth/edge_tuning.py|add_edges_at_distance|edges', edits=[
+        dict(file='vermouth/edge_tuning.py', old="    molecule.add_edges_from(edges)\n\n\ndef add_inter_molecule_edges", new="    n_new = sum(1 for _ in edges)\n    molecule.add_edges_from(edges)\n    del n_new\n\n\ndef add_inter_molecule_edges")]),
+    dict(name='benign-edges-materialised-then-walked-twice', expect='silent', edits=[
+        dict(file='vermouth/edge_tuning.py', old="    molecule.add_edges_from(edges)\n\n\ndef add_inter_molecule_edges", new="    edges = list(edges)\n    n_new = len(edges)\n    molecule.add_edges_from(edges)\n    del n_new\n\n\ndef add_inter_molecule_edges")]),
     dict(name='benign-direct-max', expect='silent', edits=[
         dict(file=M, old="            last_node_idx = self.max_node\n", new="            last_node_idx = self.max_node\n            assert last_node_idx in self\n")]),
     dict(name='benign-materialise-as-tuple', expect='silent', edits=[
